@@ -75,6 +75,20 @@ class Program:
         self._index(tree, relpath)
         return tree
 
+    def load_abs(self, path, relname=None):
+        """sidecar source (most-general-client harnesses, ghost lemmas) verified with the
+        same engine; lives under /verif, not in the repository"""
+        relname = relname or ("verif:" + os.path.basename(path))
+        if relname in self.files:
+            return self.files[relname]
+        with open(path, encoding="utf-8") as f:
+            src = f.read()
+        tree = ast.parse(src, filename=path)
+        self.files[relname] = tree
+        self.sources[relname] = src
+        self._index(tree, relname)
+        return tree
+
     def _index(self, tree, relpath):
         for node in tree.body:
             if isinstance(node, ast.FunctionDef):
